@@ -281,6 +281,39 @@ def monStep (m : Mon) (now : Int) (out : Outcome) : Mon × Verdict :=
       else m.lockedUntil⟩, monCheck m now)
   | _ => (m, .ok)
 
+/-! ### the same monitor with the property's parameters written out
+
+(2 s spacing, every 5th failure, k hours, 24 h reset.)  The driver's `judge` runs this one, so that
+what it demands of the implementation does not move with the source; `c14_monitor_spec` shows that
+it is `monStep` on the current tree. -/
+namespace Spec
+
+def spacingNs : Int := 2 * sec
+def resetNs : Int := 86400 * sec
+def every : Nat := 5
+def lockStepNs : Int := 3600 * sec
+
+def monN (m : Mon) (now : Int) : Nat := if m.n = 0 ∨ m.lastFail + resetNs < now then 1 else m.n + 1
+
+def tooSoon (m : Mon) (now : Int) : Bool :=
+  match m.lastEval with
+  | some l => decide (now < l + spacingNs)
+  | none => false
+
+def monCheck (m : Mon) (now : Int) : Verdict :=
+  if tooSoon m now then .tooSoon else if inLockout m now then .duringLockout else .ok
+
+def monStep (m : Mon) (now : Int) (out : Outcome) : Mon × Verdict :=
+  match out with
+  | .accepted => (⟨some now, 0, m.lastFail, none⟩, monCheck m now)
+  | .rejected =>
+    (⟨some now, monN m now, now,
+      if monN m now % every = 0 then some (now + ((monN m now / every : Nat) : Int) * lockStepNs)
+      else m.lockedUntil⟩, monCheck m now)
+  | _ => (m, .ok)
+
+end Spec
+
 def monAll {U : Type} [DecidableEq U] : (U → Mon) → List (Event U) → Bool
   | _, [] => true
   | ms, e :: es =>
